@@ -95,7 +95,9 @@ class Configuration:
             np.random.default_rng(self.seed)
             random.seed(self.seed)
         else:
-            not_deterministic_seed = (os.getpid() * int(time.time())) % 123456789
+            # OS entropy: a seed built from pid * clock coincides for two workers
+            # whenever (pid_a - pid_b) * second is a multiple of the modulus
+            not_deterministic_seed = int.from_bytes(os.urandom(4), "little")
             np.random.seed(not_deterministic_seed)
             np.random.default_rng(not_deterministic_seed)
             random.seed(not_deterministic_seed)
